@@ -126,6 +126,10 @@ def plan(tier, seed):
         p.append(("sim", dict(skeleton="T9", script=sc, date="interior", n=2, toggles=["set", "reset"])))
     for sc in SCRIPTS_T9_CHAINED[:3]:
         p.append(("sim", dict(skeleton="T9", script=sc, date="interior", n=2, toggles=["set", "reset"])))
+    # link / list changes in a simulation that is refused for its date (nothing may stay attached to the new targets)
+    for sc in (SCRIPTS_T9[0], SCRIPTS_T9[4], SCRIPTS_T9[10]):
+        for d in ("before", "naive"):
+            p.append(("sim", dict(skeleton="T9", script=sc, date=d, n=2, toggles=["set", "reset"])))
     for sc in SCRIPTS_T5:
         p.append(("sim", dict(skeleton="T5", script=sc, date="first", n=2, toggles=["reset", "set", "reset"])))
     p.append(("sim", dict(skeleton="T1", script=[num("job", "data_transferred")], second=[num("srv", "power")], date="interior", toggles=["set", "reset"])))
